@@ -527,7 +527,9 @@ def _masked_getitem(a, key):
     if not isinstance(key, tuple):
         key = (key,)
     if not key or not (isinstance(key[0], slice) and key[0] == slice(None)):
-        raise EngineError("indexing a masked selection")
+        # general indexing of a selection: materialise it as an array (relational contract of the row order, relops.py)
+        from .relops import masked_to_arr
+        return getitem(masked_to_arr(a), key if len(key) != 1 else key[0])
     rest, plan, ax = [], [], 0
     for k in key[1:]:
         if k is None:
@@ -558,6 +560,9 @@ def _masked_getitem(a, key):
 def getitem(a, key):
     if isinstance(a, Masked):
         return _masked_getitem(a, key)
+    if isinstance(key, Masked):
+        from .relops import masked_to_arr
+        key = masked_to_arr(key)
     shape = a.shape
     if isinstance(key, tuple) and len(key) >= 2 and isinstance(key[-1], Arr) and key[-1].dtype == "bool" \
             and all(sv.is_scalar(norm(k)) for k in key[:-1]):
